@@ -353,7 +353,9 @@ func (e *engine) primOps(src primSrc, rng *hlib.Rng) {
 					continue
 				}
 			}
-			ver := func(p any, ins [][]byte) ([][]byte, string) { return nil, errS(p.(tink.Verifier).Verify(ins[0], ins[1])) }
+			ver := func(p any, ins [][]byte) ([][]byte, string) {
+				return nil, errS(p.(tink.Verifier).Verify(ins[0], ins[1]))
+			}
 			run("Verify", true, []in1{{"signature", sig}, {"data", pt}}, ver)
 			run("Verify-invalid", true, []in1{{"signature", flipLast(sig)}, {"data", pt}}, ver)
 		case "hybenc":
